@@ -61,6 +61,8 @@ func Sleep(ctx context.Context, args ...object.Object) object.Object {
 	defer timer.Stop()
 	select {
 	case <-ctx.Done():
+		// The sleep was cut short: the script does not go on as if it had slept
+		return object.NewError(ctx.Err())
 	case <-timer.C:
 	}
 	return object.Nil
